@@ -74,7 +74,7 @@ ASSUMPTIONS = [
     "server messages on the event stream carry ids whose str() differs from str(id) of the client's requests in flight (the pending table is keyed by str(id))",
     "ids are compared with their JSON type (7 is not \"7\"), also for the messages the transport synthesises",
     "a second answer of the server AFTER the request has ended with its POST (200 + answer / non-2xx / exception, then an event) may or may not be delivered (1 or 2 entries accepted); an answer on the stream BEFORE any POST completion must give exactly one",
-    "a 200 whose body is not the answer (acknowledgement document, foreign response) is generated only with VERIF_C12_200ACK=1 (candidate finding findings/C12-200-with-non-answer-body.json)",
+    "a 200 whose body is not the answer (acknowledgement document, foreign response) acknowledges the request like a 202 (finding findings/C12-200-with-non-answer-body.json, repaired by 03a72e1)",
     "a second endpoint announcement and an answer after the synthesised timeout are outside the quantifier and not generated; line ends are LF or CRLF (a lone CR is not treated as a line end, as in the Streamable-HTTP transport)",
     "no theorem depends on the connection cap or on the codes of the synthesised errors; the generator re-reads them from the source on every run (through constants and builder functions) and otherwise measures the cap on the running code and compares synthesised errors without their codes (see notes)",
     "release of real tasks/streams/clients is observed only through the mock transport (no real sockets in the quick tier)",
